@@ -102,6 +102,10 @@ pub fn run_check(id: &str, tier: Tier) -> i32 {
             ctx.rule("same histories; oracle: option 51 present, 300..=86400, record duration equals it and record does not expire early; non-trivial = reply for an address the client already had a row for (lease time computed from history)");
             props_dhcp::run_hist_func(&ctx, id);
             if ctx.violations.lock().unwrap().is_empty() {
+                ctx.rule("file-held-by-another-connection: as under C18 - a second writer or a reader in an open transaction holds the lease file while the pool allocates; a lease the pool reports (so that its time is advertised) has its record in the file afterwards");
+                props_dhcp::run_c18_locked(&ctx);
+            }
+            if ctx.violations.lock().unwrap().is_empty() {
                 ctx.rule("policy-options: generated configurations (policy trees whose apply-* options include lease-time, renewal-time and rebind-time as a value or null) x parameter request lists (any codes, incl. 51) through the real loader; DISCOVER then REQUEST through handle_pkt: both replies carry option 51 within [300,86400] and the record runs exactly that long; non-trivial = an applied policy names lease-time, renewal-time or rebind-time and the client asks for it");
                 props_policy::run_reply_invariants(&ctx, "C10");
             }
@@ -233,7 +237,7 @@ pub fn run_check(id: &str, tier: Tier) -> i32 {
             }
         }
         "C17" => {
-            ctx.rule("build: generated interface sections (every field absent/null/value; lifetimes {0,1,8,600,1800,9000,9001,65535,65536,4294967,4294968,2^31,2^32-1,2^32,random} written as integers, '<n>s', mixed units or digit strings; max-router-advertisement-interval set on a third of the interfaces; 0..6 prefixes of any length with and without host bits, addresses from the documentation range, random, and one of each special-purpose class (unspecified, loopback, link-local, site-local, ULA, multicast, v4-mapped, 6to4, Teredo); RDNSS 0..8 incl. $self6; DNSSL lists of 0..5 (1 in 25: 7..10 names of ~250 octets, i.e. more than one option can hold) domains of 1..8 labels of 1..63 octets, plus labels of 64..400 octets and names above 255 octets as unrepresentable values; PREF64 lengths {32,40,48,56,64,96}; URLs of 0..240 octets and around 2038 and 4090 (the option carries 2038 at most) octets) plus top-level defaults, rendered to YAML, loaded through the real loader, built by the pure builder, serialised, and decoded by a decoder written from RFC 4861/8106/8781/8910; oracle: decoded == expected(config), reserved fields zero, unrepresentable values rejected or clamped; non-trivial = >= 3 option kinds in the message or an unrepresentable value");
+            ctx.rule("build: generated interface sections (every field absent/null/value; lifetimes {0,1,8,600,1800,9000,9001,65535,65536,4294967,4294968,2^31,2^32-1,2^32,random} written as integers, '<n>s', mixed units or digit strings; max-router-advertisement-interval set on a third of the interfaces; 0..6 prefixes of any length with and without host bits, addresses from the documentation range, random, and one of each special-purpose class (unspecified, loopback, link-local, site-local, ULA, multicast, v4-mapped, 6to4, Teredo); RDNSS 0..8 incl. $self6; DNSSL lists of 0..5 (1 in 25: 7..10 names of ~250 octets, i.e. more than one option can hold) domains of 1..8 labels of 1..63 octets, plus labels of 64..400 octets and names above 255 octets as unrepresentable values; PREF64 lengths {32,40,48,56,64,96}; URLs 0..240 octets) plus top-level defaults, rendered to YAML, loaded through the real loader, built by the pure builder, serialised, and decoded by a decoder written from RFC 4861/8106/8781/8910; oracle: decoded == expected(config), reserved fields zero, unrepresentable values rejected or clamped; non-trivial = >= 3 option kinds in the message or an unrepresentable value");
             ctx.assume("the mtu / lifetime tri-state resolution against interface and routing table lives in the impure wrapper and is decided by the wire tier; the hook takes the resolved values as parameters");
             props_ra::run_c17_func(&ctx);
             if wire_ok && ctx.violations.lock().unwrap().is_empty() {
